@@ -101,14 +101,31 @@ def twccrec : Component where
   init := init
   step := step
 
-/-! component `twccsnd`: the SenderInterceptor loop on a virtual clock -/
+/-! component `twccsnd`: the SenderInterceptor loop on a virtual clock.  Several remote streams may be
+bound (`bind ssrc= tcc=`); a packet of a stream is recorded under that stream's SSRC when the stream
+negotiated the extension and the packet carries it, and not at all otherwise. -/
 
 structure SState where
   snd : Sender
   first : Bool      -- no op seen yet (a `cfg` line is only accepted first)
+  /-- the remote streams bound so far (latest binding first) and whether their StreamInfo negotiated the
+  transport-cc extension.  Which header-extension id a stream negotiated is no part of the protocol:
+  every stream is read under its own. -/
+  bound : List (Nat × Bool) := []
   deriving Inhabited
 
-def sInit : SState := { snd := { rcd := newRecorder 0, media := defaultMedia }, first := true }
+def sInit : SState :=
+  { snd := { rcd := newRecorder 0, media := defaultMedia }, first := true, bound := [(defaultMedia, true)] }
+
+/-- a packet of stream `ssrc` (`none`: not bound) whose header carries the extension iff `ext`. -/
+def sndPkt (st : SState) (ssrc seq : Nat) (ext : Bool) : Option SState :=
+  match st.bound.find? (·.1 == ssrc) with
+  | none => none
+  | some (_, tcc) =>
+    if tcc && ext then
+      let s := ({ st.snd with media := ssrc }).pkt seq
+      some { st with snd := { s with media := st.snd.media } }
+    else some st
 
 def maskSS (l : String) : String :=
   match l.splitOn " " with
@@ -124,12 +141,32 @@ def sndStep (st : SState) (ts : List String) : SState × List String :=
     match (lookup fs "interval").bind (parseU · 3600000), (lookup fs "media").bind (parseU · 4294967295) with
     | some iv, some m =>
       if iv = 0 then (st', ["bad-op"]) else
-      ({ snd := { rcd := newRecorder 0, media := m, interval := (iv : Int) * 1000 }, first := false }, [])
+      ({ snd := { rcd := newRecorder 0, media := m, interval := (iv : Int) * 1000 }, first := false,
+         bound := [(m, true)] }, [])
+    | _, _ => (st', ["bad-op"])
+  | ["bind", _, _] =>
+    match (lookup fs "ssrc").bind (parseU · 4294967295), (lookup fs "tcc").bind (parseU · 1) with
+    | some ssrc, some tcc => ({ st' with bound := (ssrc, tcc == 1) :: st.bound }, [])
     | _, _ => (st', ["bad-op"])
   | ["pkt", _] =>
     match (lookup fs "seq").bind (parseU · 65535) with
-    | some seq => ({ st' with snd := st.snd.pkt seq }, [])
+    | some seq => ((sndPkt st' st.snd.media seq true).getD st', [])
     | none => (st', ["bad-op"])
+  | ["pkt", _, _] =>
+    match (lookup fs "seq").bind (parseU · 65535), (lookup fs "ssrc").bind (parseU · 4294967295) with
+    | some seq, some ssrc =>
+      match sndPkt st' ssrc seq true with
+      | some s => (s, [])
+      | none => (st', ["bad-op"])
+    | _, _ => (st', ["bad-op"])
+  | ["pkt", _, _, _] =>
+    match (lookup fs "seq").bind (parseU · 65535), (lookup fs "ssrc").bind (parseU · 4294967295),
+      (lookup fs "ext").bind (parseU · 1) with
+    | some seq, some ssrc, some ext =>
+      match sndPkt st' ssrc seq (ext == 1) with
+      | some s => (s, [])
+      | none => (st', ["bad-op"])
+    | _, _, _ => (st', ["bad-op"])
   | ["adv", _] =>
     match (lookup fs "us").bind (parseU · (2 ^ 40)) with
     | some us =>
